@@ -506,3 +506,4 @@ def run(ck, **kw):
     _run_own(ck)
     ck.include('C05', 'every printed number is the value the decomposer returns')
     ck.include('C11', 'the diagrams handed to the decomposer are built with plug_inputs / plug_output / plug / to_adjoint of graph.rs')
+    ck.include('C02', 'the simulator works on circuit.to_graph(): a wrong translation (gate semantics, qubit / output order after SWAPs) gives wrong amplitudes, expectation values and samples', own_only=True)
